@@ -117,8 +117,11 @@ def worker(sh):
             g.add('gt.nodiv %s %s' % (enc[t], C.le(k, 32)), 'pow', 'exponentiate_gt_nodiv', t, k)
         else:
             g.add('gt.div %s %s' % (enc[t], C.le(k, 32)), 'pow', 'exponentiate_gt_div', t, k)
-    for _ in range(sh.pick(10, 200)):
-        cs = [rng.choice([0, 1, XA - 1, XA, (1 << 64) - 1, rng.getrandbits(64), rng.randrange(XA)]) for _ in range(4)]
+    # degenerate digit vectors: all zero (y = 0: the result must still be written, as the identity), single non-zero digit
+    degenerate = [[0, 0, 0, 0], [1, 0, 0, 0], [0, 1, 0, 0], [0, 0, 1, 0], [0, 0, 0, 1], [XA - 1, 0, 0, 0], [0, 0, 0, XA // 2]] if sh.index < 8 else []
+    for cs in degenerate + [None] * sh.pick(10, 200):
+        if cs is None:
+            cs = [rng.choice([0, 1, XA - 1, XA, (1 << 64) - 1, rng.getrandbits(64), rng.randrange(XA)]) for _ in range(4)]
         t = rng.choice(logs)
         g.add('gt.%s %s %s' % ('poxip' if rng.random() < 0.3 else 'pox', enc[t], ' '.join(C.le(c, 8) for c in cs)), 'pox', t, cs)
     for t in logs:
@@ -137,6 +140,15 @@ def worker(sh):
         g.add('gt.mulrandip %s %s' % (enc[t], stream.hex()), 'rand', t, stream)
         g.add('rc.pox.random %s' % stream.hex(), 'prand', stream)
         g.add('c.wkd_random_gt %s' % stream.hex(), 'wkdgt', stream)
+    if sh.index < 8:
+        # the accepted draw is y = 0 (four zero digits), directly, after a rejected digit, and after a rejected candidate y = r
+        zero = bytes(32)
+        for stream in (zero + bytes(64), rng.randrange(XA, 1 << 64).to_bytes(8, 'little') + zero + bytes(64), boundary_stream(rng, 0)[:32] + zero + bytes(64)):
+            t = rng.choice(logs[1:])
+            g.add('gt.mulrand %s %s' % (enc[t], stream.hex()), 'rand', t, stream)
+            g.add('gt.mulrandip %s %s' % (enc[t], stream.hex()), 'rand', t, stream)
+            g.add('rc.pox.random %s' % stream.hex(), 'prand', stream)
+            g.add('c.wkd_random_gt %s' % stream.hex(), 'wkdgt', stream)
     if sh.index < 6:
         for delta in (0, -1, 1, 0):
             stream = boundary_stream(rng, delta)
